@@ -86,10 +86,10 @@ theorem filter_fold (h : Fam c ms) (u : String) : ∀ (rest : List MSpec) (acc :
     cases hb : (f.2.2 == u)
     · simp only [Bool.false_eq_true, ↓reduceIte]
       rw [filter_fold h u rest acc hrest]
-      simp [owned, List.filter_cons, hb]
+      simp [owned, hb]
     · simp only [↓reduceIte]
       rw [filter_fold h u rest _ hrest]
-      simp [owned, List.filter_cons, hb, mleaves_cons, List.append_assoc]
+      simp [owned, hb, mleaves_cons, List.append_assoc]
 
 /-- `filterSelectionSetByLoc`: service `u` gets exactly the root fields it owns, in document order -/
 theorem filterByLoc_m (h : Fam c ms) (u : String) :
@@ -128,12 +128,12 @@ theorem route_fold (h : Fam c ms) : ∀ (urls : List String) (acc : List (String
       have ha : active ms u = false := by simp [active, ho]
       simp only [mleaves_nil]
       rw [route_fold h us acc]
-      simp [List.filter_cons, ha]
+      simp [ha]
     | cons f fs =>
       have ha : active ms u = true := by simp [active, ho]
       simp only [mleaves_cons]
       rw [route_fold h us _]
-      simp [List.filter_cons, ha, entryOf, ho, mleaves_cons, List.append_assoc]
+      simp [ha, entryOf, ho, mleaves_cons, List.append_assoc]
 
 theorem owned_internal (h : Fam c ms) : owned ms internalService = [] := by
   unfold owned
